@@ -28,6 +28,7 @@ def run(chk):
     cs = CaseSet("c15")
     plan = []
     for wi in range(14 if quick else 150):
+        rng.seed("%d/c15-1/%d" % (chk.seed, wi))      # every world has its own stream: families do not disturb each other
         wj, sph = area_world(rng, nfeat=rng.randint(1, 3), plumes=0.25, random_models=True, cross=False)
         wj.pop("force surface temperature", None)
         if wi % 3 == 0:
@@ -84,6 +85,7 @@ def run(chk):
     from qgen import line_query
     line_plan = []
     for wi in range(10 if quick else 120):
+        rng.seed("%d/c15-2/%d" % (chk.seed, wi))      # every world has its own stream: families do not disturb each other
         wj, sph, lf = line_world(rng, spherical=False, straight=rng.random() < 0.5, uniform_sections=True, allow_mass_conserving=False, extra_area=0.0)
         for k in ("temperature models", "composition models", "grains models", "velocity models", "sections"):
             lf.pop(k, None)
@@ -175,7 +177,10 @@ def run(chk):
                                 viol.append(("a random grain orientation is not a proper rotation matrix (%s)" % why, cs.describe(ia)))
                                 break
                     if model_of is not None and model_of["model"].startswith("random") and any(abs(x) > 0 for m in mats for x in m):
-                        drew = True
+                        ii = model_of["compositions"].index(p[1])
+                        # the draws are visible in the answer unless the orientation is not deflected at all and the sizes are fixed
+                        if model_of["grain sizes"][ii] < 0 or not model_of["model"].endswith("deflected") or model_of.get("deflections", [1.0] * (ii + 1))[ii] > 0:
+                            drew = True
                         chk.nontriv(cs.probe[ia])
                         i = model_of["compositions"].index(p[1])
                         if model_of["normalize grain sizes"][i] and abs(sum(sizes) - 1.0) > 1e-12:
